@@ -11,7 +11,7 @@ EXPLANATION = ("Necessary shape conditions of the bounded-FIFO behaviour, decide
                "*published* tail); (R02.3) producer and consumer address slot id % BUFFER_SIZE of the same buffer; (R02.4) for the full-sync "
                "ring every access to head/tail/buffer lies inside the spin-lock's critical section on all paths, so its operations are "
                "serialised (sufficient for mutual exclusion); (R02.5) the id the index-based publish / cancel rebuild from (index, lap) is `index + lap*N` "
-               "(dimension rules shared with C15). Linearizability of the lock-free ring under contention is NOT decided.")
+               "(dimension rules shared with C15). Linearizability of the lock-free ring under contention is NOT decided. R02.1 also: no path of the lock-free ring's reserving functions takes a second reservation while the first is still held (computed typestate: a retry that re-reserves after a lost recede abandons a position for good).")
 ASSUMPTIONS = ["interleaving-level correctness of AtomicMove's overshoot-and-recede protocol is not decided statically",
                "crossbeam-channel internals trusted"]
 
@@ -68,7 +68,18 @@ def check(ctx):
                     ctx.ob("R02.1", key, ok, body.loc(b), f"commit CAS on {field}: expected={show(exp)} new={show(new)} must be (id -> id+1), which forces publication/release into sequence order")
             else:
                 ctx.ob("R02.1", key, False, body.loc(b), f"`{field}.{meth}` is not one of the protocol shapes (fetch_add(1) / ordered CAS)")
-    ctx.floor("R02.1", 10)
+    # a reservation taken is kept until it is published / receded: taking another one on top of it (a retry that re-reserves after its recede CAS lost) abandons
+    # the first -- the counter drifts ahead for good.  Computed by the typestate engine: no acquire while the same ring reservation is held.
+    for fn in ("leak_slot_internal", "consume_leaking_internal"):
+        kf = AM + "::" + fn
+        an_ = eng.analyse(kf)
+        dbl = [e for e in an_.events if e[0] in ("double-acquire",)]
+        fb_ = eng.body(kf)
+        ctx.ob("R02.1", f"{kf}|one-reservation-at-a-time", not dbl and not an_.undecided, fb_.loc(dbl[0][1]) if dbl else f"{fb_.f['file']}:{fb_.f['line']}",
+               "no path reserves a second position while the first is still held" if not dbl else
+               "a path reaches the reserving fetch_add again with the previous reservation still held (its recede CAS failed and the id was dropped): every such collision leaves the "
+               "reservation counter one ahead forever -- capacity is lost although every caller was answered `None`")
+    ctx.floor("R02.1", 8)
     # ---------------------------------------------------------------- R02.2 exact guards (lock-free ring)
     def guard(fkey, rule_key, want):
         body = eng.body(fkey); dg = dag.Dag(body); found = 0
